@@ -305,3 +305,29 @@ pub fn bad_dead_arm_signed(value: i8) -> u8 {
         _ => unreachable!(),
     }
 }
+pub fn ok_trim_len_difference(line: &str) -> usize {
+    let trimmed = line.trim_end_matches(' ');
+    line.len() - trimmed.len()
+}
+pub fn bad_trim_len_difference_other(line: &str, other: &str) -> usize {
+    let trimmed = other.trim_end_matches(' ');
+    line.len() - trimmed.len()
+}
+pub fn ok_slice_at_find(s: &str) -> &str {
+    match s.find('\n') {
+        Some(i) => &s[..i],
+        None => s,
+    }
+}
+pub fn bad_slice_at_find_other<'a>(s: &'a str, other: &'a str) -> &'a str {
+    match other.find('\n') {
+        Some(i) => &s[..i],
+        None => s,
+    }
+}
+pub fn bad_slice_at_find_plus(s: &str) -> &str {
+    match s.find('é') {
+        Some(i) => &s[..i.wrapping_add(1)],
+        None => s,
+    }
+}
